@@ -68,6 +68,17 @@ theorem Alive.unpack {cfg : Config} {s : State} (inv : Inv cfg s) {c pg : Nat} {
 
 /-! ## remove -/
 
+theorem mem_updatePeer_elems {ps : List Peer} {c : Nat} {F : List Element → List Element} {p' : Peer}
+    (h : p' ∈ updatePeer ps c (fun q => { q with elements := F q.elements })) :
+    ∃ p ∈ ps, p'.conn = p.conn ∧ p'.fetches = p.fetches ∧
+      ((p.conn = c ∧ p'.elements = F p.elements) ∨ (p.conn ≠ c ∧ p'.elements = p.elements)) := by
+  obtain ⟨p, hp, rfl⟩ := mem_updatePeer.1 h
+  refine ⟨p, hp, ?_⟩
+  by_cases hc : p.conn = c
+  · simp [hc]
+  · have : (p.conn == c) = false := by simp [hc]
+    simp [this, hc]
+
 def rmState (s : State) (e : Element) : State :=
   { s with
     index := removeIndex s.index e.path,
@@ -79,9 +90,8 @@ theorem removeElement_spec (x : Ctx) (e : Element) :
   obtain ⟨h1, h2⟩ := notifyFetchers_spec x e .remove
   unfold removeElement rmState
   refine ⟨?_, h2.of_out_eq rfl⟩
-  show { (notifyFetchers x e "remove").st with index := _, peers := _ } = _
   have h1' : (notifyFetchers x e "remove").st = x.st := h1
-  rw [h1']
+  simp only [h1']
 
 theorem mem_allElems_rmState {cfg : Config} {s : State} (inv : Inv cfg s) {q : Peer} (hq : q ∈ s.peers)
     {e : Element} (he : e ∈ q.elements) {e' : Element} :
@@ -115,31 +125,30 @@ theorem trans_remove {cfg : Config} {s : State} (inv : Inv cfg s) {q : Peer} (hq
   have hinv : Inv cfg (rmState s e) := by
     refine ⟨⟨?_, ?_, ?_, ?_⟩, inv.fetches.congr hfc (Nat.le_refl _), ?_⟩
     · intro p' hp' e' he'
-      obtain ⟨p, hp, rfl⟩ := mem_updatePeer.1 hp'
-      split at he' <;> split
-      all_goals first
-        | exact inv.elems.owner p hp e' (List.mem_of_mem_filter he')
-        | exact inv.elems.owner p hp e' he'
+      obtain ⟨p, hp, hc, _, hel⟩ := mem_updatePeer_elems hp'
+      rw [hc]
+      rcases hel with ⟨_, hel⟩ | ⟨_, hel⟩
+      · rw [hel] at he'; exact inv.elems.owner p hp e' (List.mem_of_mem_filter he')
+      · rw [hel] at he'; exact inv.elems.owner p hp e' he'
     · intro p' hp'
-      obtain ⟨p, hp, rfl⟩ := mem_updatePeer.1 hp'
-      split
-      · exact List.Nodup.sublist (List.filter_sublist.map _) (inv.elems.pathNodup p hp)
-      · exact inv.elems.pathNodup p hp
+      obtain ⟨p, hp, _, _, hel⟩ := mem_updatePeer_elems hp'
+      rcases hel with ⟨_, hel⟩ | ⟨_, hel⟩
+      · rw [hel]; exact List.Nodup.sublist (List.filter_sublist.map _) (inv.elems.pathNodup p hp)
+      · rw [hel]; exact inv.elems.pathNodup p hp
     · show ((removeIndex s.index e.path).map (·.1)).Nodup
       unfold removeIndex
       exact List.Nodup.sublist (List.filter_sublist.map _) inv.elems.idxNodup
     · intro p' hp' e' he'
       have hall : e' ∈ allElems (rmState s e) := mem_allElems.2 ⟨p', hp', he'⟩
       have hne := (hmem.1 hall).2
-      obtain ⟨p, hp, rfl⟩ := mem_updatePeer.1 hp'
+      obtain ⟨p, hp, hc, _, hel⟩ := mem_updatePeer_elems hp'
       show (e'.path, _) ∈ removeIndex s.index e.path
       unfold removeIndex
-      rw [List.mem_filter]
+      rw [List.mem_filter, hc]
       refine ⟨?_, by simpa using hne⟩
-      split at he' <;> split
-      all_goals first
-        | exact inv.elems.indexed p hp e' (List.mem_of_mem_filter he')
-        | exact inv.elems.indexed p hp e' he'
+      rcases hel with ⟨_, hel⟩ | ⟨_, hel⟩
+      · rw [hel] at he'; exact inv.elems.indexed p hp e' (List.mem_of_mem_filter he')
+      · rw [hel] at he'; exact inv.elems.indexed p hp e' he'
     · intro e' he'
       exact (inv.tbl e' (hmem.1 he').1).congr_peers hfc
   refine ⟨hinv, rfl, ?_, ?_, ?_, ?_⟩
@@ -428,7 +437,8 @@ theorem trans_change {cfg : Config} {s : State} (inv : Inv cfg s) {p : Peer} (hp
     refine ⟨inv.elems.congr hsk rfl, inv.fetches.congr hfc (Nat.le_refl _), ?_⟩
     intro e'' he''
     rcases hmem.1 he'' with rfl | ⟨h, _⟩
-    · exact ((inv.tbl e heall).congr_elem' (List.Perm.refl _) (fun _ _ => rfl)).congr_peers hfc
+    · exact ((inv.tbl e heall).congr_elem' (e' := { e with value := some v }) (List.Perm.refl _)
+        (fun _ _ => rfl)).congr_peers hfc
     · exact (inv.tbl e'' h).congr_peers hfc
   refine ⟨hinv, rfl, ?_, ?_, ?_, ?_⟩
   · intro c f h; exact (hasFetch_congr hfc).1 h
